@@ -30,16 +30,21 @@ class Sut:
 
 
 class FsAdapter(engine.Adapter):
-    def __init__(self, mode: str, folders=FOLDERS, files=FILES, durations=(3, 3)):
+    def __init__(self, mode: str, folders=FOLDERS, files=FILES, durations=(3, 3), init=(), power=False, flat=False):
+        self.init = [tuple(e) for e in init]  # events applied by build(): the search starts from a non-initial state
+        self.power = power                    # offer node shutdown / start-up (durations 0) among the events
+        self.flat = flat                      # offer the flat ["file", <name>, <verb>] request route
         self.mode = mode
         self.folders = list(folders)
         self.files = list(files)
         self.durations = tuple(durations)
-        self.name = "c15-%s-%d%d" % (mode, len(self.folders), len(self.files))
+        self.name = "c15-%s-%d%d%s%s%s" % (mode, len(self.folders), len(self.files), "-i%d" % len(self.init) if self.init else "",
+                                           "-pwr" if power else "", "-flat" if flat else "")
         self._menu = self._make_menu()
 
     def params(self):
-        return {"mode": self.mode, "folders": self.folders, "files": self.files, "durations": list(self.durations)}
+        return {"mode": self.mode, "folders": self.folders, "files": self.files, "durations": list(self.durations),
+                "init": [list(e) for e in self.init], "power": self.power, "flat": self.flat}
 
     # ------------------------------------------------------------------ build
     def build(self):
@@ -59,6 +64,8 @@ class FsAdapter(engine.Adapter):
         s.tracked = {}  # id(obj) -> (kind, obj, parent)
         s.sim.pre_timestep(0)
         self._track(s)
+        for ev in self.init:
+            self.apply(s, ev)
         return s
 
     # ------------------------------------------------------------------ menu
@@ -86,6 +93,12 @@ class FsAdapter(engine.Adapter):
                     if v == "corrupt" and self.mode == "act":
                         continue  # no action class addresses folder corrupt
                     m.append(("folder", fo, v))
+            if self.flat:
+                for fi in self.files:
+                    for v in ("scan", "repair", "restore", "corrupt"):
+                        m.append(("flatfile", fi, v))
+            if self.power:
+                m.append(("pwr",))
         else:
             for fo in self.folders:
                 m.append(("create_folder", fo))
@@ -154,6 +167,8 @@ class FsAdapter(engine.Adapter):
             return base + ["folder", ev[1], "file", ev[2], ev[3]]
         if k == "folder":
             return base + ["folder", ev[1], ev[2]]
+        if k == "flatfile":
+            return base + ["file", ev[1], ev[2]]
         raise ValueError(ev)
 
     # ------------------------------------------------------------------ apply
@@ -172,6 +187,9 @@ class FsAdapter(engine.Adapter):
                                            "creations=%s deletions=%s right after pre_timestep" % (
                                                s.fs.num_file_creations, s.fs.num_file_deletions)))
                 outcome = "tick"
+            elif k == "pwr":
+                verb = "shutdown" if s.pc.operating_state.name == "ON" else "startup"
+                outcome = verb + ":" + s.sim.apply_request(["network", "node", "pc", verb]).status
             elif self.mode == "api":
                 outcome = self._api(s, ev)
             else:
@@ -253,6 +271,10 @@ class FsAdapter(engine.Adapter):
             if ev[2] not in live_before.get(ev[1], ()):
                 v.append(violation("deleted_or_missing_item_unavailable", self._sig(s, ev, live_before),
                                    "%s succeeded although %s/%s was not live" % (list(ev), ev[1], ev[2])))
+        if k == "flatfile" and outcome == "success":
+            if not any(ev[1] in names for names in live_before.values()):
+                v.append(violation("deleted_or_missing_item_unavailable", self._sig(s, ev, live_before),
+                                   "%s succeeded although no live file is called %s" % (list(ev), ev[1])))
         if k in ("folder", "delete_folder") and outcome == "success":
             if ev[1] not in live_before:
                 v.append(violation("deleted_or_missing_item_unavailable", self._sig(s, ev, live_before),
@@ -358,11 +380,13 @@ class FsAdapter(engine.Adapter):
             tuple(cfo(fo) for fo in fs.deleted_folders.values()),
             fs.num_file_creations, fs.num_file_deletions,
             tuple(sorted(map(str, fs._folder_request_manager.request_types))),
+            s.pc.operating_state.value,
         )
 
 
 def make_adapter(params):
-    return FsAdapter(params["mode"], params["folders"], params["files"], params.get("durations", (3, 3)))
+    return FsAdapter(params["mode"], params["folders"], params["files"], params.get("durations", (3, 3)), params.get("init", ()),
+                     params.get("power", False), params.get("flat", False))
 
 
 def replay(doc):
@@ -385,6 +409,16 @@ def run(tier, is_known):
     else:
         plan = [("req", ["f1"], FILES, (1, 1), 4, 30000, 40), ("act", ["f1"], FILES, (1, 1), 4, 30000, 25),
                 ("api", FOLDERS[:1] + ["f2"], FILES[:1], (1, 1), 4, 30000, 25), ("req", FOLDERS, FILES, (3, 3), 3, 30000, 30)]
+    # start states other than the empty file system (a name deleted and created again; a deleted folder holding live and deleted
+    # files), node power events and the flat file route
+    RE = [("create_file", "f1", "a.txt", False), ("delete_file", "f1", "a.txt"), ("create_file", "f1", "a.txt", False)]
+    DF = [("create_file", "f1", "a.txt", False), ("create_file", "f1", "b.txt", False), ("delete_file", "f1", "a.txt"), ("delete_folder", "f1")]
+    th = tier == "thorough"
+    plan = [p + ((), False, False) for p in plan]
+    plan += [("req", ["f1"], FILES, (1, 1), 5 if th else 3, 100000, 300 if th else 30, RE, False, False),
+             ("req", ["f1"], FILES[:1], (1, 1), 5 if th else 3, 100000, 300 if th else 30, DF, False, True),
+             ("req", ["f1"], FILES[:1], (1, 1), 6 if th else 4, 100000, 300 if th else 30, (), True, True),
+             ("act", ["f1"], FILES, (2, 2), 5 if th else 3, 100000, 300 if th else 30, RE, True, False)]
     viols = []
     tot = {"states": 0, "transitions": 0}
     per = []
@@ -392,8 +426,8 @@ def run(tier, is_known):
     hist = {}
     outcomes = 0
     exhaustive = True
-    for mode, fo, fi, dur, depth, budget, tb in plan:
-        ad = FsAdapter(mode, fo, fi, dur)
+    for mode, fo, fi, dur, depth, budget, tb, init, power, flat in plan:
+        ad = FsAdapter(mode, fo, fi, dur, init, power, flat)
         r = engine.bfs(ad, depth, state_budget=budget, time_budget=tb, is_known=is_known)
         viols += r.violations
         tot["states"] += r.states
